@@ -1,6 +1,7 @@
 package mcp
 
 import (
+	"github.com/google/jsonschema-go/jsonschema"
 	"errors"
 	"context"
 	"log/slog"
@@ -643,3 +644,67 @@ func zzC18HandshakeEra() {
 	vAssert(ss.assertServerInitiatedRequestAllowed(methodCreateMessage) == nil, "C18.a-handshake-session-is-a-legacy-session-whatever-version-it-asked-for")
 	vReach("end")
 }
+
+// zzC18Mutators: the public mutators (AddTool/RemoveTools, AddPrompt/RemovePrompts, AddResource/RemoveResources) over a
+// short history, with a legacy session connected. Every operation after which a list answer differs from before — a new
+// name, a REPLACED definition under an existing name, a removal of something served — leaves a notification owed: the
+// debounce timer of that kind is armed (or has fired since the change). Removing what is not there owes nothing.
+func zzC18Mutators() {
+	tenv := &zzC11Env{timers: map[*time.Timer]*zzTimer{}}
+	zzC11 = tenv
+	env := &zzC18Env{}
+	zzC18 = env
+	srv := NewServer(&Implementation{Name: "s", Version: "v"}, nil)
+	legacy := zzLegacySession(srv)
+	srv.sessions = []*ServerSession{legacy}
+	th := func(context.Context, *CallToolRequest) (*CallToolResult, error) { return nil, nil }
+	ph := func(context.Context, *GetPromptRequest) (*GetPromptResult, error) { return nil, nil }
+	rh := func(context.Context, *ReadResourceRequest) (*ReadResourceResult, error) { return nil, nil }
+	names := []string{"a", "b"}
+	uris := []string{"file:///a", "file:///b"}
+	var has [3][2]bool
+	notif := []string{notificationToolListChanged, notificationPromptListChanged, notificationResourceListChanged}
+	steps := vParam("steps")
+	for i := 0; i < steps; i++ {
+		kind, which := vChoice("kind", 3), vChoice("which", 2)
+		add := vBool("add")
+		version := string([]byte{'v', byte('0' + i)}) // a re-added feature comes with a new description
+		before := len(env.methods)
+		armedBefore := srv.pendingNotifications[notif[kind]] != nil && tenv.timers[srv.pendingNotifications[notif[kind]]].armed
+		switch {
+		case kind == 0 && add:
+			srv.AddTool(&Tool{Name: names[which], Description: version, InputSchema: &jsonschema.Schema{Type: "object"}}, th)
+		case kind == 0:
+			srv.RemoveTools(names[which])
+		case kind == 1 && add:
+			srv.AddPrompt(&Prompt{Name: names[which], Description: version}, ph)
+		case kind == 1:
+			srv.RemovePrompts(names[which])
+		case kind == 2 && add:
+			srv.AddResource(&Resource{URI: uris[which], Name: version}, rh)
+		default:
+			srv.RemoveResources(uris[which])
+		}
+		changed := add || has[kind][which]
+		has[kind][which] = add
+		t := srv.pendingNotifications[notif[kind]]
+		armed := t != nil && tenv.timers[t] != nil && tenv.timers[t].armed
+		if changed {
+			vAssert(armed, "C18.every-change-of-the-served-set-or-of-a-definition-leaves-a-notification-owed")
+			vReach("owed")
+		} else {
+			vAssert(armed == armedBefore, "C18.removing-what-is-not-there-owes-nothing")
+		}
+		vAssert(len(env.methods) == before, "C18.notifications-go-out-when-the-timer-fires-not-inline")
+		// the timer may fire between operations
+		if armed && vBool("timerFires") {
+			tenv.timers[t].armed = false
+			tenv.timers[t].f()
+			vAssert(len(env.methods) == before+1 && env.methods[before] == notif[kind], "C18.timer-fires-one-delivery-round")
+			vAssert(len(env.legacy[len(env.legacy)-1]) == 1, "C18.legacy-sessions-all-notified")
+		}
+	}
+	vReach("end")
+}
+
+func zzNoAnnotationProblem(t *Tool) error { return nil }
